@@ -90,7 +90,7 @@ CLAIMS = {
              'typestate walk proves every local allocation is freed/handed over on every non-error exit; no use after free, double '
              'free, or dangling member left behind by a function that frees a member; no member that may own a block is overwritten by '
              'a new allocation outside set-up (guarded, released first, transient, or single-shot).',
-        design_ref='DESIGN.md section 6 C08; rules R-OWN-FIELD, R-OWN-ELEM, R-OWN-LOCAL, R-OWN-OVERWRITE (11.2), R-UAF, R-DANGLING',
+        design_ref='DESIGN.md section 6 C08; rules R-OWN-FIELD, R-OWN-ELEM, R-OWN-LOCAL, R-OWN-OVERWRITE (11.2), R-SYMTAB-WRITERS, R-UAF, R-DANGLING',
         note='Decides these clauses for all paths of all API-reachable functions; exits with an error status (allocation failure) are '
              'exempt (not protocol-conforming); of_finish_decoding is taken as final (a retry after FAILURE is outside the documented '
              'protocol and not analysed). ' + BASE,
@@ -99,7 +99,7 @@ CLAIMS = {
         text='Structural invariants the set semantics of the sparse matrix rests on: complete row+column linking of every fresh entry '
              'before it is returned, symmetric unlink and recycling in delete, free list never outliving its blocks, strict index guards '
              'against the allocated extents, complete release in the destructor, no use after free in the unit.',
-        design_ref='DESIGN.md section 6 C17; rules R-DLINK, R-FREELIST, R-IDX-GUARD, R-OWN-FIELD, R-UAF',
+        design_ref='DESIGN.md section 6 C17; rules R-DLINK, R-FREELIST, R-IDX-GUARD, R-OWN-FIELD, R-UAF, R-ROWCOL-SYMMETRY, R-BLOCKCHAIN, R-HINT-ORDER (11.5)',
         note='Does NOT decide set semantics under arbitrary operation sequences (ordered traversal, idempotent insert): that is a '
              'model-level property. ' + BASE,
         technique='link-pairing rule over stores, free-list rule, guard-vs-extent registry built from allocation sites'),
@@ -111,7 +111,7 @@ CLAIMS = {
              'interpretation over integer linear forms of the input bits; the table popcount and the array popcount are decided '
              'structurally on top of the exact byte table (extent and once-only coverage for every size class).',
         design_ref='DESIGN.md section 6 C18 and 11.2; rules R-WORDGEOM, R-HW8, R-SWAR, R-HW32-TABLE, R-HW-ARRAY, R-BITLOOP, R-IDX-GUARD, '
-                   'R-OWN-FIELD, R-PAIRSWAP, R-SCRATCH-RESET, R-DENSE-ROWFILL, R-KEA (XOR kernels)',
+                   'R-OWN-FIELD, R-PAIRSWAP, R-SOLVER-RANGES, R-CONVERT-RANGE, R-COPY-SCALE, R-SCRATCH-RESET, R-DENSE-ROWFILL, R-KEA (XOR kernels)',
         note='Does NOT decide equality with the bit-matrix model for all dimensions, nor that the solver '
              'returns the unique solution iff full column rank. ' + BASE,
         technique='constant-geometry consistency, constant-data comparison, bit-linear abstract interpretation, loop trip count, '
@@ -160,7 +160,7 @@ CLAIMS = {
              'an empty scratch list; the pipeline gives up on dimension grounds only for rows < columns; the counters the solver '
              'relies on are not re-initialised after the null symbol was pre-loaded; the last-symbol-null claim is sound; the XOR '
              'kernels are byte-exact.',
-        design_ref='DESIGN.md section 6 C03; rules R-SETAVAIL, R-ML-PIPELINE, R-FINISH-TRUTH, R-PAIRSWAP, R-SCRATCH-RESET, R-ML-GIVEUP, R-INIT-ORDER, R-FLAG-TRUTH, R-EXTRA-MARK, R-NULLFEED, R-KEA on the XOR kernels (11.2)',
+        design_ref='DESIGN.md section 6 C03; rules R-SETAVAIL, R-ML-PIPELINE, R-FINISH-TRUTH, R-PAIRSWAP, R-SCRATCH-RESET, R-ML-GIVEUP, R-INIT-ORDER, R-FLAG-TRUTH, R-EXTRA-MARK, R-NULLFEED, R-KEA on the XOR kernels, R-SOLVER-RANGES, R-CONVERT-RANGE, R-CB, R-SRCSTORE, R-SYMTAB-WRITERS (11.2, 11.5)',
         note='First sentence: mechanism only. "Succeeds iff uniquely determined" is a rank condition with no structural clause; it is '
              'NOT claimed. ' + BASE,
         technique='must-pass-through ordering over the CFG, loop-range rules, dominance'),
@@ -182,7 +182,7 @@ CLAIMS = {
              'decoders start their scan for k non-NULL table entries only when k distinct symbols were counted (duplicate suppression, '
              'counters, threshold).',
         design_ref='DESIGN.md section 6 C07; rules R-APIGUARD, R-RO-FLOW, R-NULLSLOT, R-IDX-GUARD, R-UAF, R-DANGLING, R-FREELIST, R-LAYOUT, '
-                   'R-SRCPTR, R-KEA, R-DUP, R-COUNT, R-RS-THRESHOLD',
+                   'R-SRCPTR, R-KEA, R-DUP, R-COUNT, R-RS-THRESHOLD, R-INIT-ORDER, R-SYMTAB-WRITERS (11.5)',
         note='Does NOT decide bounds of accesses whose index is read out of the sparse matrix or an index table, heap layout, alignment '
              'traps. ' + BASE,
         technique='guard/dominance rules, flow of written pointers with callee summaries, typestate walks, extent registry, KEA'),
